@@ -47,6 +47,9 @@ func VH_C20_WritersAndTransforms() {
 	s.Items[0].EndAt = s.Items[0].StartAt + 10*time.Second
 	s.Items = append(s.Items, &Item{StartAt: 30 * time.Second, EndAt: 31 * time.Second, Lines: []Line{{Items: []LineItem{{Text: "b"}}}}})
 	op := choose(12)
+	if choose(2) == 1 {
+		s.Metadata.SSAScriptType = "v4.00+"
+	}
 	vfreeze()
 	var buf bytes.Buffer
 	switch op {
@@ -91,5 +94,36 @@ func VH_C20_STL() {
 	data[1024+8] = byte(nondetInt64(0, 24))
 	r, err := ReadFromSTL(bytes.NewReader(data), STLOptions{})
 	vassert(err == nil && len(r.Items) == 1, "C20 stl read")
+	vreach("end")
+}
+
+// C20: every call returns what it returns when run alone - no state is carried from one call to the next.
+// STL reader: document B is read alone, then after an arbitrary document A (symbolic text bytes over letters,
+// diacritics, control codes), and must give the same cues.
+func VH_C20_STLReadHistory() {
+	mk := func(text []byte) []byte {
+		s := NewSubtitles()
+		s.Items = append(s.Items, &Item{StartAt: time.Second, EndAt: 2 * time.Second, Lines: []Line{{Items: []LineItem{{Text: "x"}}}}})
+		var buf bytes.Buffer
+		vassert(s.WriteToSTL(&buf) == nil, "C20 stl fixture written")
+		d := buf.Bytes()
+		copy(d[1024+16:], text)
+		return d
+	}
+	docB := mk([]byte{0x0b, 0x0b, 'e', 'a', 'u', 0x0a, 0x0a})
+	n := vbound("textbytes", 3, 4)
+	ta := []byte{0x0b, 0x0b}
+	for i := 0; i < n; i++ {
+		ta = append(ta, nondetByteIn("ae\xc2\xc8\x8a\x8f\x0a\x80"))
+	}
+	docA := mk(ta)
+	r1, e1 := ReadFromSTL(bytes.NewReader(docB), STLOptions{})
+	vassert(e1 == nil && len(r1.Items) == 1, "C20 stl: B alone")
+	t1 := vtextOf(r1.Items[0])
+	vreach("alone")
+	_, _ = ReadFromSTL(bytes.NewReader(docA), STLOptions{})
+	r2, e2 := ReadFromSTL(bytes.NewReader(docB), STLOptions{})
+	vassert(e2 == nil && len(r2.Items) == 1, "C20 stl: B after A")
+	vassert(vtextOf(r2.Items[0]) == t1, "C20 history: a call returns what it returns when run alone")
 	vreach("end")
 }
